@@ -53,6 +53,8 @@ impl RedirectorSharedState {
             let mut local_port: u16 = 0;
             let mut bpf_object: Option<Arc<Mutex<redirector::BpfObject>>> = None;
             while let Some(action) = rx.recv().await {
+                #[cfg(gpa_verif)]
+                crate::verif_hook::delay_point("actor_redirector").await;
                 match action {
                     RedirectorAction::SetLocalPort {
                         local_port: new_local_port,
